@@ -223,6 +223,7 @@ def run(chk: Check, drv: Driver):
                     else:
                         chk.violation("C back end disagrees with the direct execution of the IR", case,
                                       expected={"ir": [mr.levels, mr.vals]}, got={"c": [rc.levels, rc.vals]})
+    hoisting_part(chk, prepared)
     printer_part(chk, drv, prepared)
 
 
@@ -375,6 +376,65 @@ def printer_part(chk: Check, drv: Driver, prepared):
 
 def replay(chk: Check, drv: Driver, path: str):
     run(chk, drv)
+
+
+def allocas_outside_entry(llvm_text: str) -> list[str]:
+    """names of the functions of an LLVM module that execute an `alloca` outside their entry block. The LLVM back end
+    gives every IR variable ONE function-level slot ("declarations hoisted to function-level allocas"): an alloca in
+    any other block is re-executed by the loops around it and is never released before the function returns."""
+    bad, fn, block_no = [], None, 0
+    for line in llvm_text.splitlines():
+        ls = line.strip()
+        if ls.startswith("define "):
+            fn = ls.split("@", 1)[1].split("(", 1)[0].strip('"')
+            block_no = 0
+        elif ls == "}":
+            fn = None
+        elif fn is not None:
+            if ls.endswith(":") and not ls.startswith(";"):
+                block_no += 1
+            elif " alloca " in f" {ls} " and block_no > 1 and fn not in bad:
+                bad.append(fn)
+    return bad
+
+
+def hoisting_part(chk: Check, prepared):
+    """(1) certificate on the LLVM text of every prepared problem: every alloca sits in the entry block;
+    (2) stack-stress runs on the real LLVM back end: sparse kernels with ~20 000 stored entries executed in a thread
+    with a 256 KiB stack — constant stack use passes, stack use proportional to the iteration count crashes."""
+    from tensora.generate import Language, generate_code
+    from tensora.kernel_type import KernelType
+
+    n = bad = 0
+    for pr in prepared:
+        try:
+            text = generate_code(pr.problem, [KernelType.evaluate, KernelType.assemble, KernelType.compute], Language.llvm).unwrap()
+        except Exception:  # noqa: BLE001 - refusals / known internal errors are C08's concern
+            continue
+        n += 1
+        where = allocas_outside_entry(text)
+        if where:
+            bad += 1
+            chk.unproved_obligation("certificate:allocas-in-entry-block(hoisted declarations)",
+                                    "the LLVM module allocates a variable slot outside the entry block of " + ", ".join(where) +
+                                    ": the slot is re-allocated by every execution of that block and never released (stack grows with the iteration count)",
+                                    pr.case())
+    chk.corr("llvm-allocas-in-entry-block", n, bad)
+    # stack stress (also the failing-input search for the certificate above)
+    m = 150
+    p_in = ({(k,): float(k % 7 + 1) for k in range(m)}, (m,))
+    big = ({(k,): float(k % 5 + 1) for k in range(0, 40000, 2)}, (40000,))
+    stress = [("a(i,j) = p(i) * q(j)", {"a": "ss", "p": "s", "q": "s"}, {"p": p_in, "q": p_in}),
+              ("a(i) = b(i) + c(i)", {"a": "s", "b": "s", "c": "s"}, {"b": big, "c": big}),
+              ("a(i) = b(i) * c(i)", {"a": "d", "b": "s", "c": "s"}, {"b": big, "c": big})]
+    for text, fs, ins in stress:
+        res = WORKER.run(text, fs, [ins], "llvm", timeout=300, stack=256 * 1024)
+        chk.count("stack_stress_runs")
+        case = {"assignment": text, "formats": fs, "stored_entries": {k_: len(v[0]) for k_, v in ins.items()}, "thread_stack_bytes": 256 * 1024}
+        if res[0] == "crash":
+            chk.violation(f"LLVM kernel crashes (signal {res[1]}) on a moderately large input when run on a 256 KiB stack: its stack use grows with the iteration count", case)
+        elif res[0] != "ok" or res[1][0][0] != "ok":
+            chk.violation(f"LLVM kernel failed in the stack-stress run: {str(res)[:200]}", case)
 
 
 def _f10_shaped(e) -> bool:
